@@ -743,3 +743,22 @@ Proof.
   cbn [retype]. unfold eval_type, ref_type. cbn [dt_eqb datatype_eqb datatype_code Z.eqb negb andb eval_type_with ref_type_src].
   cbn. destruct (mt m v); reflexivity.
 Qed.
+
+(* ---- a subquery as a schema: its output fields (named by Field.Name, typed by EvalType over ITS sources) and the
+   references among its dimensions; as a source it contributes exactly what a measurement with those fields and tag
+   keys would ---- *)
+Definition sub_fields orc mt (q : select) : list (text * datatype) :=
+  map (fun f => (field_name f, eval_type orc mt (s_sources q) (f_expr f))) (s_fields q).
+Definition sub_tags (q : select) : list text :=
+  flat_map (fun d => match d with VarRef v _ => [v] | _ => [] end) (s_dims q).
+
+Lemma field_dimensions_subquery orc mt fd q m pre post :
+  fd m = Some (sub_fields orc mt q, sub_tags q) ->
+  field_dimensions orc mt fd (pre ++ SSubQuery q :: post) = field_dimensions orc mt fd (pre ++ SMeasurement m :: post).
+Proof.
+  intros Hm. unfold field_dimensions. rewrite !fold_left_app. cbn [fold_left].
+  destruct (fold_left _ pre (Some ([], []))) as [[fs ds]|]; [|reflexivity]. rewrite Hm. f_equal. f_equal. f_equal.
+  - unfold sub_fields. generalize fs. induction (s_fields q) as [|f l IH]; intros a; cbn [fold_left map fst snd]; [reflexivity|apply IH].
+  - unfold sub_tags. generalize ds. induction (s_dims q) as [|d l IH]; intros a; cbn [fold_left flat_map]; [reflexivity|].
+    rewrite fold_left_app. destruct d; cbn [fold_left]; apply IH.
+Qed.
